@@ -185,7 +185,10 @@ func c06Run(env *Env, pl *C06Plan, collect *[]byte) {
 	policyCalls := 0
 	switch pl.Policy {
 	case "cap":
-		rv.AcceptTTL = func(_ context.Context, _ fdo.Voucher, req uint32) (uint32, error) { policyCalls++; return min(req, capTTL), nil }
+		rv.AcceptTTL = func(_ context.Context, _ fdo.Voucher, req uint32) (uint32, error) {
+			policyCalls++
+			return min(req, capTTL), nil
+		}
 	case "zero":
 		rv.AcceptTTL = func(context.Context, fdo.Voucher, uint32) (uint32, error) { policyCalls++; return 0, nil }
 	case "error":
